@@ -8,6 +8,7 @@ CONSTANTS
   KindSet = {"exact", "corrupt", "truncated", "absent", "abort", "abort0"}
   ROs = {FALSE}
   ExtNames = {"a", "b", "c"}
+  MaxFiles = {1, 2, 1000000, 1000001}
   WhatIf = "none"
   NOps = 9
 SPECIFICATION SSpec
